@@ -6,9 +6,17 @@ rows = []
 for p in sorted(glob.glob(os.path.join(ROOT, "seeded", "*", "meta.json"))):
     m = json.load(open(p))
     c = m.get("check_result", {})
+    first = c.get("violation_line", "")
+    rc = m.get("recheck") or {}
+    if rc and "error" not in rc:
+        c = dict(c, violation_line=rc.get("violation_line", ""), failing_input=rc.get("failing_input", ""))
     vl = c.get("violation_line", "")
     verdict = "MISSED" if not vl else ("caught, no failing input" if "no-failing-input-found" in vl else "caught with failing input")
-    if m.get("after_strengthening"):
+    if rc and "error" not in rc:
+        f1 = "missed" if not first else ("caught, no failing input" if "no-failing-input-found" in first else "caught with failing input")
+        if f1 != verdict.lower().replace("MISSED".lower(), "missed"):
+            verdict += " (first run, before strengthening: %s)" % f1
+    elif m.get("after_strengthening"):
         verdict += " (after strengthening: %s)" % m["after_strengthening"]
     need = " ".join((m.get("needs_to_manifest") or "").split())[:260]
     rows.append((m["id"], m["breaks_property"], verdict, (c.get("failing_input") or "")[:200].replace("|", "/"), need.replace("|", "/")))
